@@ -381,6 +381,7 @@ func checkC12(c *Ctx) {
 	ruleX4b(c)
 	ruleX11(c)
 	ruleX12(c)
+	ruleX13(c, map[string]bool{"ers": true, "erc": true, "internal": true})
 }
 
 func checkC14(c *Ctx) {
